@@ -571,7 +571,7 @@ class TFLiteSupportedOperators:
         - Stride h must be between 1 and 3 when ofm height is greater than 1
         - Stride w must be between 1 and 3 when ofm height is greater than 1 or
           stride w must be divisible by 2 or 3 and ifm width must be divisible
-          by stride_w/2 or stride_w/3"""
+          by stride_w/2 or stride_w/3, and the kernel must not be dilated in width"""
 
         stride_w, stride_h = op.get_kernel_stride()
         stride_min = 1
@@ -585,6 +585,10 @@ class TFLiteSupportedOperators:
         _, optimized_stride = calc_resize_factor(ifm_width, stride_w) if stride_w > 1 else (1, stride_w)
         # Optimized stride indicates the final Conv2D stride width after all optimizations are performed
         can_optimize_stride_width_gt_3 = optimized_stride <= 3
+
+        # A stride above 3 is reduced by folding adjacent filter columns into the depth, which a dilated filter does not have
+        dilation_w, _ = op.get_kernel_dilation()
+        can_optimize_stride_width_gt_3 = can_optimize_stride_width_gt_3 and (stride_w <= 3 or dilation_w == 1)
 
         stride_w_valid = ofm_width == 1 or ((stride_min <= stride_w) and can_optimize_stride_width_gt_3)
 
